@@ -400,6 +400,16 @@ func (session *HermesSession) Run(workingDir string, args []string, logID string
 				if g.PTF == 0 && g.CAPPAR == 0 {
 					for L := 1; L <= g.AZHO; L++ {
 						Lindex := L - 1
+						// a horizon with explicit capacity values (above a last horizon without them) keeps them
+						if g.FKA[Lindex] > 0 {
+							for LT := g.UKT[L-1] + 1; LT <= g.UKT[L] && LT < g.N+1; LT++ {
+								g.W[LT-1] = g.W_Backup[LT-1]
+								g.WMIN[LT-1] = g.WMIN_Backup[LT-1]
+								g.PORGES[LT-1] = g.PORGES_Backup[LT-1]
+								g.WNOR[LT-1] = g.WNOR_Backup[LT-1]
+							}
+							continue
+						}
 						Hydro(L, &g, &herInputVars, &herPath)
 						if g.FELDW[Lindex] == 0 {
 							g.FELDW[Lindex] = g.FELDW[Lindex-1]
